@@ -4,6 +4,7 @@ CONSTANTS
   Emit = FALSE
   Slots = {"s1", "s2"}
   MaxSteps = 4
+  UseKinds = {"parse-window"}
   Machine = "history"
 INVARIANTS CleanInPoolH
 
